@@ -29,6 +29,32 @@ def cases(tier, rng):
         dts = [rand_dt(rng) for _ in range(n)]
         yield (hist_case(aid(dim, rng.randrange(4), rng.random() < .5, rng.random() < .5), dim, states, dts, rng), 'random')
 
+def app_cases(tier, rng):
+    from scen import Ids, action, spec, c_script, sop, spawn, frame, raw, scenario, REBUILD, remove, insert
+    SPEEDS = [F(0), F(1, 4), F(1, 2), F(1), F(1), F(2), F(4)]
+    for _ in range(1500 if tier == 'thorough' else 120):
+        ids = Ids()
+        L = rng.randint(6, 30)
+        acts = []
+        for j in range(rng.randint(1, 3)):
+            st, script = 'SNone', []
+            for _ in range(L + 1):
+                if rng.random() < 0.4: st = rng.choice(STATES)
+                script.append(st)
+            acts.append(action(ids, aid(j % 4, j, False, False), [], [], [c_script('KExplicit', script)]))
+        c = rng.choice([0, 1])
+        cfg = {(c, 0): spec(acts)}
+        steps = [sop(spawn(0, [c]))]
+        speed, paused = F(1), False
+        for i in range(L):
+            if rng.random() < 0.25: speed = rng.choice(SPEEDS)
+            if rng.random() < 0.15: paused = not paused
+            real = rand_dt(rng, maxe=7) if rng.random() < .85 else rng.choice([F(1, 2), F(3, 8)])     # beyond the 250 ms clamp
+            steps.append(frame(raw(), real, speed, paused))
+            if i == L // 2 and rng.random() < 0.3:
+                steps.append(sop(REBUILD))
+        yield (scenario([c], [0], cfg, steps), 'virtual-time')
+
 def nontrivial(case, out):
     return ('SFired' in case or 'SOngoing' in case)
 
@@ -38,14 +64,21 @@ STAGES = [dict(name='data', mode='unit', coq='Check.C10c', cases=cases, nontrivi
                     '(thorough, 1092) / <= 4 (quick, 120) with deltas cycling through {0,1/64,1/8,1/4}, plus sticky random histories of '
                     'length 5..30 with deltas m*2^-e s (odd m < 8, e <= 9); all four output types; non-trivial = some frame not None; distinct = distinct case text')]
 
+STAGES.append(dict(name='virtual', mode='app', coq='Check.C10a', cases=app_cases, nontrivial=nontrivial, shard=25,
+                   exhaustive={'thorough': False, 'quick': False},
+                   rule='real App with TimeUpdateStrategy::ManualDuration: 1-3 actions driven by sticky scripted states over 6-30 frames, real deltas m*2^-e s and some beyond '
+                        'the 250 ms clamp, relative speed changing among {0,1/4,1/2,1,2,4}, pauses, a rebuild in the middle; polled durations and event payloads are recomputed '
+                        'from the polled states and (clamped real delta x speed, 0 while paused)'))
+CLAUSES_A = {1: 'polled elapsed differs from the sum of virtual deltas since the action left None', 2: 'polled fired differs from the sum of virtual deltas over the latest run of frames whose previous state was Fired',
+             3: 'not 0 <= fired <= elapsed', 4: 'durations carried by an event differ from the polled ones', 8: 'panic', 9: 'malformed trace', 10: 'panic'}
 CLAUSES = {1: 'polled state is not the state passed to update', 2: 'elapsed differs from the sum of deltas since the action left None',
            3: 'fired differs from the sum of deltas over the latest run of frames whose previous state was Fired',
            4: 'not 0 <= fired <= elapsed', 5: 'durations not zero on a frame whose previous state is None',
            6: 'durations carried by an event differ from the polled ones', 7: 'fresh ActionData has non-zero durations',
            9: 'malformed output', 10: 'panic'}
-def describe(stage, clause): return CLAUSES.get(clause, 'clause %d' % clause)
+def describe(stage, clause): return (CLAUSES_A if stage == 'virtual' else CLAUSES).get(clause, 'clause %d' % clause)
 def matches_known(k, case, verdict): return False
 TRUSTED = TRUSTED_BASE
 ASSUMES = ['deltas are m*2^-e s with odd m < 8, e <= 9, up to 250 ms: Duration::as_secs_f32 and the f32 sums are exact on them (9/512 s is not: its nanosecond count needs 25 bits)',
            'f32 overflow of durations after ~1e38 s is outside the model',
-           'app-level tie (virtual time = real*speed, pauses) is checked by the app stage once the pipeline model exists']
+           'virtual delta = clamped real delta x relative speed, 0 while paused (Bevy formula), exercised by the app stage']
